@@ -7,14 +7,19 @@ ROOT="$(cd "$(dirname "$0")/.." && pwd)"
 ID="$1"; CASES="$2"
 export CARGO_NET_OFFLINE=true
 status=0
-for blocks in 2 8; do
+for blocks in 2 8 4096; do
   target="$ROOT/harness/target-geom$blocks"
+  tier=thorough; cases="$CASES"; scale=1; workers="${VERIF_WORKERS:-16}"
+  if [ "$blocks" = "4096" ]; then
+    # the shipped geometry (128 MiB files, sparse on tmpfs): few, short histories with payloads of 5..80 MiB
+    tier=quick; cases="${VERIF_GEOMETRY_PROD_CASES:-240}"; scale=256; workers=8
+  fi
   if ! (cd "$ROOT/harness" && MRECORDLOG_VERIF_BLOCKS_PER_FILE=$blocks CARGO_TARGET_DIR="$target" cargo build --release --offline -q 2>"$ROOT/harness/build-geom.log"); then
     echo "ENGINE-ERROR: geometry build ($blocks blocks) failed"; tail -n 20 "$ROOT/harness/build-geom.log"; exit 2
   fi
   scratch="/dev/shm/verif-geom-$$-$blocks"; [ -d /dev/shm ] || scratch="${TMPDIR:-/tmp}/verif-geom-$$-$blocks"
   mkdir -p "$scratch"; cp "$ROOT/KNOWN_FINDINGS.txt" "$scratch/"
-  out=$(cd "$scratch" && VERIF_ROOT="$scratch" VERIF_CASES="$CASES" "$target/release/verif-harness" "$ID" --tier thorough 2>&1); code=$?
+  out=$(cd "$scratch" && VERIF_ROOT="$scratch" VERIF_CASES="$cases" VERIF_LEN_SCALE="$scale" VERIF_WORKERS="$workers" "$target/release/verif-harness" "$ID" --tier $tier 2>&1); code=$?
   echo "geometry blocks_per_file=$blocks: $(echo "$out" | grep -E "^$ID tier" | head -1)"
   python3 - "$ROOT/evidence/$ID.json" "$scratch/evidence/$ID.json" "$blocks" <<'PY'
 import json, sys
